@@ -509,7 +509,7 @@ def nontrivial(line, reply):
 #    applied one step at a time to the implementation's own previous iterate (errors cannot compound chaotically);
 #  * the stop rule evaluated exactly with rationals;
 #  * LM: residual sums of squares / Jacobians / least-squares solutions at 200-bit precision.
-TOL_K = 4096.0        # multiples of the interval radius (calibration: see report; observed maximum << 40)
+TOL_K = 16384.0       # multiples of the interval radius (calibration: observed maximum 106 over 12 seeds + thorough)
 TOL_ULP = 512.0       # plus this many eps of the magnitudes involved
 EPS = 2.0 ** -52
 
@@ -579,6 +579,7 @@ class Prog:
                 val[i] = F.exp(val[nd[1]])
             elif k == "sin":
                 val[i] = F.sin(val[nd[1]])
+        F.guard(val)
         adj = [None] * len(nodes)
         adj[-1] = F.num(1.0)
         g = [F.num(0.0) for _ in theta]
@@ -618,7 +619,12 @@ class Prog:
                 acc(nd[1], a * val[i])
             elif k == "sin":
                 acc(nd[1], a * F.cos(val[nd[1]]))
+        F.guard(adj)
         return val[-1], g
+
+
+class OutOfRange(Exception):
+    """a quantity leaves the range in which f64 behaves like real arithmetic (overflow): out of the oracle's scope"""
 
 
 class IV:
@@ -640,6 +646,13 @@ class IV:
         return math.isfinite(float(a.a)) and math.isfinite(float(a.b))
 
     @staticmethod
+    def guard(vals):
+        """f64 overflows where the interval evaluation (unbounded exponent) does not: such runs are not judged"""
+        for a in vals:
+            if a is not None and not (abs(float(a.a)) < 1e150 and abs(float(a.b)) < 1e150):
+                raise OutOfRange()
+
+    @staticmethod
     def mid_rad(a):
         lo, hi = float(a.a), float(a.b)
         return (lo + hi) / 2, (hi - lo) / 2 + 2 ** -1070
@@ -658,6 +671,10 @@ class MP:
 
     def powi(self, a, n):
         return a ** n
+
+    @staticmethod
+    def guard(vals):
+        pass
 
 
 def within(impl, ival, extra_mag=0.0, stats=None):
@@ -735,6 +752,7 @@ def check_traj(kind, t, reply_toks, F, stats, crate_rule=False):
                     v[i] = F.num(b2) * v[i] + (one - F.num(b2)) * g[i] ** 2
                     mhat = m[i] / (one - F.num(b1) ** tt)
                     vhat = v[i] / (one - F.num(b2) ** tt)
+                    F.guard([m[i], v[i], mhat, vhat])
                     exp_.append((th[i] - F.num(a) * mhat / (F.sqrt(vhat) + F.num(eps)), F.num(a) * mhat))
             else:
                 pt = [th[i] - F.num(mom) * u[i] for i in range(n)] if nest else th
@@ -742,7 +760,11 @@ def check_traj(kind, t, reply_toks, F, stats, crate_rule=False):
                 exp_ = []
                 for i in range(n):
                     u[i] = F.num(mom) * u[i] + F.num(a) * g[i]
+                    F.guard([u[i]])
                     exp_.append((th[i] - u[i], u[i]))
+        except OutOfRange:
+            stats["out_of_range"] = stats.get("out_of_range", 0) + 1
+            return None
         except Exception:
             return None
         for i in range(n):
@@ -801,7 +823,7 @@ def check_grad(t, reply_toks, F, stats):
     return None
 
 
-COV_FACTOR = 4096.0
+COV_FACTOR = 512.0
 
 
 def check_lm(t, reply_toks, M, stats, FI=None):
